@@ -106,6 +106,9 @@ impl EndiannessRead for LittleEndian {
 }
 
 const PID_SENTINEL: u16 = 1;
+/// End of a parameter list as written by XTypes implementations (DDS-XTypes 7.4.1.1.5.2); the RTPS
+/// PID_SENTINEL is what this implementation writes, both are accepted when reading
+const PID_LIST_END: u16 = 0x3f02;
 
 trait EncodingVersion: Sized {
     /// Whether appendable types are preceded by a DHEADER (rule (30), version 2) or encoded as final (rule (29), version 1)
@@ -198,7 +201,10 @@ impl EncodingVersion1 {
             Self::align(deserializer, 4)?;
             let current_pid: u16 = deserializer.deserialize_primitive_type()?;
             let length: u16 = deserializer.deserialize_primitive_type()?;
-            if current_pid & 0b00111111_11111111 == PID_SENTINEL && length == 0 {
+            let current_pid_without_flags = current_pid & 0b00111111_11111111;
+            if (current_pid_without_flags == PID_SENTINEL && length == 0)
+                || current_pid_without_flags == PID_LIST_END
+            {
                 return Ok(());
             }
             deserializer.reader.seek(length as usize)?;
@@ -223,7 +229,9 @@ impl EncodingVersion for EncodingVersion1 {
             let current_pid: u16 = deserializer.deserialize_primitive_type()?;
             let current_pid_without_flags = current_pid & 0b00111111_11111111;
             let length: u16 = deserializer.deserialize_primitive_type()?;
-            if current_pid_without_flags == PID_SENTINEL && length == 0 {
+            if (current_pid_without_flags == PID_SENTINEL && length == 0)
+                || current_pid_without_flags == PID_LIST_END
+            {
                 if pid == PID_SENTINEL {
                     return Ok(0);
                 } else {
